@@ -465,3 +465,27 @@ func sign(priv any, h uint8, data []byte) []byte {
 	}
 	panic("harness: unknown private key type")
 }
+
+// signDigestWith signs data under an arbitrary registered crypto.Hash (also ones RFC 5246 gives no
+// code to), the way a key holder could if a verifier mapped undefined code points to such a hash.
+func signDigestWith(priv any, ch crypto.Hash, data []byte) ([]byte, bool) {
+	if !ch.Available() {
+		return nil, false
+	}
+	hh := ch.New()
+	hh.Write(data)
+	digest := hh.Sum(nil)
+	switch k := priv.(type) {
+	case *rsa.PrivateKey:
+		sig, err := rsa.SignPKCS1v15(nil, k, ch, digest)
+		if err != nil {
+			return nil, false
+		}
+		return sig, true
+	case *ecdsa.PrivateKey:
+		return encRS(signECDSA(k, digest)), true
+	case *dsa.PrivateKey:
+		return encRS(signDSA(k, digest)), true
+	}
+	return nil, false
+}
